@@ -268,7 +268,7 @@ def coq_deps(relfiles):
     return sorted(seen)
 
 
-def proof_status(mod):
+def proof_status(mod, tier='quick'):
     """Rebuild the Coq development for this property and report what the kernel accepted.
 
     Returns dict(ok, obligations, discharged, assumptions{thm: text}, log, failing).
@@ -324,6 +324,17 @@ def proof_status(mod):
             if t not in st['assumptions']:
                 st['ok'] = False
                 st['failing'] = st['failing'] or ('theorem %s not stated/printed in %s' % (t, prop))
+    # 4b. thorough: independent re-check of the compiled property file and everything it depends on
+    st['coqchk'] = None
+    if tier == 'thorough' and st['ok'] and os.environ.get('VERIF_NO_COQCHK') != '1':
+        def go():
+            return sh('timeout 1500 coqchk -silent -o -R theories BCT BCT.Properties.%s' % pid, cwd=COQ, timeout=1600)
+        rc4, out4 = _locked(go)
+        tail = out4[out4.find('CONTEXT SUMMARY'):] if 'CONTEXT SUMMARY' in out4 else out4[-1500:]
+        st['coqchk'] = {'rc': rc4, 'summary': tail[:3000]}
+        if rc4 != 0:
+            st['ok'] = False
+            st['failing'] = st['failing'] or ('coqchk rejects Properties/%s.vo: %s' % (pid, out4[-300:]))
     # 5. the extracted driver
     rc3, out3 = build_driver(pid)
     if rc3 != 0:
@@ -528,6 +539,7 @@ def finish(ctx, st):
         'known_findings_hit': {k: v['n'] for k, v in ctx.known_hits.items()},
         'distribution': ctx.dist,
         'proof_ok': st['ok'],
+        'coqchk': st.get('coqchk'),
     }
     cov.update(ctx.extra)
     ev = {
